@@ -45,7 +45,6 @@ man = {
     "not_applicable": na,
     "notes": "All checks: exit 0 held (possibly KNOWN-FINDING lines), 1 violation (VIOLATION lines + replay files under /verif/replays), 2 harness error. NPS_ROOT=<dir> points the same checks at a scratch copy. Fix commits in /repo are listed in /verif/known_findings.json.",
 }
-if not na:
-    del man["not_applicable"]
+# (an empty list is kept on purpose: every property of properties.jsonl is claimed)
 json.dump(man, open(os.path.join(HERE, "MANIFEST.json"), "w"), indent=1)
 print(f"MANIFEST.json: {len(checks)} checks, {len(na)} not yet claimed")
